@@ -3,6 +3,8 @@
 //!
 //! case line:  n2bin keepgoing <k or -> <failing steps> <good steps> <j>
 //! impl line:  code=<exit code> started=<failing commands that ran> good=<good outputs present>
+//! case line:  n2bin where <-C d given> <-f alt.ninja given> <-f before -C> <targets, comma separated, or ->
+//! impl line:  code=<exit code> built=<outputs present> marker=<their contents> db=<logs present>
 //! case line:  n2bin jobs <j> <steps> <pool depth, `console` or ->
 //! impl line:  code=<exit code> peak=<largest number of commands seen running at once> ran=<commands that ran>
 use crate::proj::TempProject;
@@ -41,6 +43,29 @@ fn jobs(bin: &str, j: usize, n: usize, pool: &str) -> String {
     format!("code={} peak={} ran={}", o.status.code().unwrap_or(-1), peak, ran)
 }
 
+/// -C / -f / builddir / positional targets as parse_args reads them (C18)
+fn whereis(bin: &str, c: bool, f: bool, f_first: bool, targets: &str) -> String {
+    for (dir, tag) in [(".", "top"), ("d", "d")] {
+        std::fs::create_dir_all(dir).unwrap();
+        for (mf, mtag, bd) in [("build.ninja", "build", ""), ("alt.ninja", "alt", "builddir = bd\n")] {
+            std::fs::write(format!("{}/{}", dir, mf), format!("{}rule r\n  command = echo {}-{} > $out\nbuild a: r\nbuild b: r\ndefault a\n", bd, tag, mtag)).unwrap();
+        }
+    }
+    let mut cmd = Command::new(bin);
+    let add_c = |cmd: &mut Command| { if c { cmd.arg("-C").arg("d"); } };
+    let add_f = |cmd: &mut Command| { if f { cmd.arg("-f").arg("alt.ninja"); } };
+    if f_first { add_f(&mut cmd); add_c(&mut cmd); } else { add_c(&mut cmd); add_f(&mut cmd); }
+    if targets != "-" { for t in targets.split(',') { cmd.arg(t); } }
+    let Ok(o) = cmd.output() else { return "spawn-failed".into() };
+    let mut built = vec![]; let mut marks: Vec<String> = vec![];
+    for p in ["a", "b", "d/a", "d/b"] {
+        if let Ok(s) = std::fs::read_to_string(p) { built.push(p); let m = s.trim().to_string(); if !marks.contains(&m) { marks.push(m); } }
+    }
+    let dbs: Vec<&str> = [".n2_db", "bd/.n2_db", "d/.n2_db", "d/bd/.n2_db"].into_iter().filter(|p| std::path::Path::new(p).exists()).collect();
+    let j = |v: &Vec<&str>| if v.is_empty() { "-".to_string() } else { v.join(",") };
+    format!("code={} built={} marker={} db={}", o.status.code().unwrap_or(-1), j(&built), if marks.is_empty() { "-".to_string() } else { marks.join(",") }, j(&dbs))
+}
+
 pub fn run(ctx: &mut Ctx) {
     ctx.crash_safe = true;
     let Ok(bin) = std::env::var("N2V_N2BIN") else { return };
@@ -51,6 +76,8 @@ pub fn run(ctx: &mut Ctx) {
             if t.len() == 6 && t[1] == "keepgoing" {
                 let (n, g, j) = (t[3].parse().unwrap_or(0), t[4].parse().unwrap_or(0), t[5].parse().unwrap_or(1));
                 ctx.emit(&c, || { tp.reset(); keepgoing(&bin, t[2], n, g, j) });
+            } else if t.len() == 6 && t[1] == "where" {
+                ctx.emit(&c, || { tp.reset(); whereis(&bin, t[2] == "1", t[3] == "1", t[4] == "1", t[5]) });
             } else if t.len() == 5 && t[1] == "jobs" {
                 let (j, n) = (t[2].parse().unwrap_or(1), t[3].parse().unwrap_or(0));
                 ctx.emit(&c, || { tp.reset(); jobs(&bin, j, n, t[4]) });
@@ -67,6 +94,13 @@ pub fn run(ctx: &mut Ctx) {
         for _ in 0..60 { let k = ctx.rng.range(1, 7); kg.push((k.to_string(), ctx.rng.below(7) as usize, ctx.rng.below(4) as usize, ctx.rng.range(1, 6) as usize)); }
         for _ in 0..30 { let d = ctx.rng.below(5); jb.push((ctx.rng.range(1, 9) as usize, ctx.rng.range(2, 12) as usize, if ctx.rng.chance(1, 3) { "-".into() } else { d.to_string() })); }
     }
+    for c in [false, true] { for f in [false, true] { for f_first in [false, true] {
+        if f_first && !(c && f) { continue; }
+        for targets in ["-", "a", "b", "a,b", "b,a", "nosuch", "b,nosuch", "nosuch,a", "./b", "a,a"] {
+            ctx.count("opts_where");
+            ctx.emit(&format!("n2bin where {} {} {} {}", c as u8, f as u8, f_first as u8, targets), || { tp.reset(); whereis(&bin, c, f, f_first, targets) });
+        }
+    } } }
     for (k, n, g, j) in kg {
         ctx.count("opts_keepgoing");
         ctx.emit(&format!("n2bin keepgoing {} {} {} {}", k, n, g, j), || { tp.reset(); keepgoing(&bin, &k, n, g, j) });
